@@ -4,8 +4,8 @@ through the real crates (harness `deploy`), and validation of what the crates di
 import json, os, random, re
 from . import common as C
 
-MUTANTS = ("footer", "label", "key")
-REACH = ("reach-accept", "reach-evil", "reach-refoot", "reach-expired")
+MUTANTS = ("footer", "label", "key", "aud")
+REACH = ("reach-accept", "reach-evil", "reach-refoot", "reach-expired", "reach-misaddressed")
 
 
 def behaviours(tier, seed, name):
@@ -61,7 +61,7 @@ def mutate(events, how):
             continue
         if how == "accept-rejected" and e["a"] == "Verify" and not e["ok"] and i > 40:
             e["ok"] = True
-            e["acc"] = {"kind": "local", "key": 1, "claims": 1, "note": 0}
+            e["acc"] = {"kind": "local", "key": 1, "claims": 1, "note": 0, "aud": e.get("u", "a")}
             return events, i + 1
         if how == "wrong-note" and e["a"] == "Verify" and e["ok"]:
             e["acc"] = dict(e["acc"], note=1 - e["acc"]["note"])
@@ -78,9 +78,12 @@ def mutate(events, how):
         if how == "forget-ignored" and e["a"] == "Forget" and e["ok"]:
             e["store"] = e["store"] + [{"kind": e["k"], "key": e["s"]}]
             return events, i + 1
+        if how == "wrong-audience" and e["a"] == "Verify" and e["ok"]:
+            e["acc"] = dict(e["acc"], aud="b" if e["acc"]["aud"] == "a" else "a")
+            return events, i + 1
         if how == "reject-honest" and e["a"] == "Verify" and e["ok"]:
             e["ok"] = False
-            e["acc"] = {"kind": "", "key": 0, "claims": 0, "note": 0}
+            e["acc"] = {"kind": "", "key": 0, "claims": 0, "note": 0, "aud": ""}
             return events, i + 1
     return None, 0
 
@@ -92,7 +95,7 @@ def negative_control(tracefile, name, max_events=6000):
     events = events[:k]
     n = 0
     d = os.path.dirname(tracefile)
-    for how in ("accept-rejected", "wrong-note", "wrong-key", "import-tampered", "store-confused", "forget-ignored", "reject-honest"):
+    for how in ("accept-rejected", "wrong-note", "wrong-key", "import-tampered", "store-confused", "forget-ignored", "reject-honest", "wrong-audience"):
         ev2, at = mutate([json.loads(json.dumps(e)) for e in events], how)
         if ev2 is None:
             raise C.ToolError("deployment negative control %s: nothing to mutate" % how)
@@ -121,9 +124,10 @@ def proof(out, name):
 
 
 def run(out, tier, seed, name):
-    r = C.tlc("MC_Deploy", "MC_Deploy_%s.cfg" % tier, "mc", name + "-deploy-mc", workers=8 if tier == "quick" else 14, timeout=7200, heap="16g")
-    C.tlc_must_pass(r, "MC_Deploy")
-    out.add_tlc(r)
+    for cfg in (("quick", "quick_notes") if tier == "quick" else ("thorough",)):
+        r = C.tlc("MC_Deploy", "MC_Deploy_%s.cfg" % cfg, "mc", "%s-deploy-mc-%s" % (name, cfg), workers=8 if tier == "quick" else 14, timeout=7200, heap="16g")
+        C.tlc_must_pass(r, "MC_Deploy")
+        out.add_tlc(r)
     killed = []
     for m in MUTANTS + REACH:
         x = C.tlc("MC_Deploy", "Deploy_%s.cfg" % m, "neg", "%s-deploy-neg-%s" % (name, m), workers=4, timeout=1800)
